@@ -51,6 +51,40 @@ def _legend_chunk(objs):
             header, rows = table.parse(buf.getvalue(), "csv")
             if header and (len(header) != 1 + n or any("normals" in h for h in header)):
                 out.append(("clim:table-columns", "%d scored inputs + climatology: the csv header is %r" % (n, header), rep))
+            # the climatology file is called like the FIRST scored input (in another directory), the second one differently: the legend / the
+            # table columns still name the scored inputs, in command-line order (after seed C14-i)
+            if n >= 2:
+                import shutil
+                alt = []
+                for k, src in enumerate(paths):
+                    dk = os.path.join(wd, "run%d" % k)
+                    os.makedirs(dk, exist_ok=True)
+                    alt.append(os.path.join(dk, "raw.txt" if k == 0 else "kf%d.txt" % k))
+                    shutil.copy(src, alt[-1])
+                dk = os.path.join(wd, "climdir")
+                os.makedirs(dk, exist_ok=True)
+                altclim = os.path.join(dk, "raw.txt")
+                shutil.copy(climp, altclim)
+                want = [os.path.basename(a) for a in alt]
+                with quiet():
+                    data = verif.data.Data([verif.input.get_input(a) for a in alt], clim=verif.input.get_input(altclim), clim_type=o["climType"])
+                    leg = [str(x) for x in data.get_legend()]
+                if leg != want:
+                    out.append(("clim:legend:same-name-as-input", "inputs %r + climatology climdir/raw.txt (%s): the legend is %r" % (want, o["climType"], leg), rep))
+                sys.stdout = buf = io.StringIO()
+                try:
+                    verif.driver.run(["verif"] + alt + ["-c" if o["climType"] == "subtract" else "-C", altclim, "-m", "mae", "-x", "leadtime", "-type", "csv"])
+                except SystemExit:
+                    pass
+                finally:
+                    sys.stdout = old
+                header2, rows2 = table.parse(buf.getvalue(), "csv")
+                if header2 and header2[1:] != want:
+                    out.append(("clim:table-columns:same-name-as-input", "inputs %r + climatology climdir/raw.txt: the csv header is %r" % (want, header2), rep))
+                # ... and the numbers under those names are those of the run whose files have three different names
+                if header2 and header and rows2 != rows:
+                    out.append(("clim:table-columns:same-name-as-input", "inputs %r + climatology climdir/raw.txt: the rows %r differ from those of the same "
+                                "files under other names %r" % (want, rows2[:3], rows[:3]), rep))
             # both options on one command line (not a documented combination): whatever the program makes of it -- the later one, the
             # earlier one, or an error -- the operation applied must be the one given WITH the file that is used
             other = os.path.join(d, "normals2.txt")
